@@ -18,7 +18,9 @@ import (
 	"verifharness/core"
 )
 
-func init() { core.Register(core.Check{ID: "C15", Level: "exploration", Run: runC15}) }
+func init() {
+	core.Register(core.Check{ID: "C15", Level: "exploration", Run: func(c *core.Ctx) { runC15(c); reentrancyPass(c, "C15") }})
+}
 
 type c15leaf struct {
 	b   []byte
@@ -146,7 +148,7 @@ func runC15(c *core.Ctx) {
 	if c.Thorough() {
 		maxN = 20000
 	}
-	c.Rule = fmt.Sprintf("all call histories of length <=3 over 19 calls (7 leaf counts, 12 failing-leaf placements) on one Hasher per hash function; every leaf count 0..%d (SHA-256, distinct leaves), 0..%d for SHA-512/BLAKE2b-256/SHA-1 and other leaf contents, counts 2^k-1,2^k,2^k+1 up to 2^17; RFC 9162 audit paths for every leaf of every n<=300; every set of <=2 failing leaves for n<=33; non-trivial = distinct (hash, n, contents) trees with n>=2 compared + audit paths verified", maxN/4)
+	c.Rule = fmt.Sprintf("all call histories of length <=3 over 19 calls (7 leaf counts, 12 failing-leaf placements) on one Hasher per hash function; every leaf count 0..%d (SHA-256, distinct leaves), 0..%d for SHA-512/BLAKE2b-256/SHA-1 and other leaf contents, counts 2^k-1,2^k,2^k+1 up to 2^17; RFC 9162 audit paths for every leaf of every n<=300; every set of <=2 failing leaves for n<=33; non-trivial = distinct (hash, n, contents) trees with n>=2 compared + audit paths verified", maxN, maxN/4)
 	hashes := []crypto.Hash{crypto.SHA256, crypto.SHA512, crypto.BLAKE2b_256, crypto.SHA1}
 	var nontriv int64
 	type job struct {
